@@ -29,12 +29,17 @@ import (
 
 const verifC10WaitTimeout = 60 * time.Second
 
-// Known-finding class: a checkpoint that is written into a snapshot database created for a root that
-// is older than a root checkpointed before. commitCheckpoint removes every hash it writes from the
-// checkpoint hashes holder; SnapshotState(A) then opens a new database that holds A only and
-// RemoveCommitted(A) keeps the holder entries of the commits after A - minus the hashes an earlier
-// checkpoint(B), B newer than A, already wrote into the previous database. The next checkpoint finds
-// those nodes neither in the holder nor in the new database.
+// Known-finding class: commitCheckpoint removes every hash it writes from ALL entries of the checkpoint
+// hashes holder, trusting the snapshot database it wrote to. When SnapshotState later opens a new
+// database for a root S, the holder entries of the commits after S are kept (RemoveCommitted(S)) - minus
+// the hashes that an earlier checkpoint already wrote into the previous database: nodes of a
+// checkpointed root newer than S, or nodes of an older checkpointed root that a commit after S created
+// again (same hash). The next checkpoint finds those nodes neither in the holder nor in the new
+// database, so the new database cannot rebuild the checkpointed root. A SnapshotState of a root that
+// such a checkpoint already put into the last database is skipped ("snapshot for rootHash already
+// taken") and inherits the gap. Classification: the request is served by an existing snapshot
+// database and every node missing from it belongs to a root that was checkpointed before that
+// database was opened.
 const verifC10KeyOlderSnapshot = "C10:checkpoint:incomplete-after-snapshot-of-older-root"
 
 type verifC10Req struct {
@@ -113,19 +118,21 @@ func verifC10Run(rt *rapid.T, c *kit.Case, snapshotDir func() string) {
 
 	explicitRequests := uint32(0)
 	base := fx.Adb.GetNumCheckpoints()
-	forcedSeen := uint32(0)  // checkpoints forced by Commit (holder full), detected through the counter
-	maxCheckpointSeq := -1   // newest root (commit order) that has been checkpointed, explicitly or forced
-	lastSnapshotSeq := -1    // root of the last snapshot
-	poisoned := false        // the last snapshot database was opened for a root older than a root checkpointed before
-	var lastSnapshotDB data.SnapshotDbHandler // database of the last snapshot that opened a new one
+	forcedSeen := uint32(0) // checkpoints forced by Commit (holder full), detected through the counter
+	lastSnapshotSeq := -1   // root of the last snapshot
+	var lastSnapshotDB data.SnapshotDbHandler // the newest snapshot database
+	ckptHashes := map[string]struct{}{}       // node hashes of every root checkpointed so far
+	staleCkptHashes := map[string]struct{}{}  // ... of those checkpointed before the newest database was opened
 	noteForced := func() {
 		// called when the system is quiet: the counter tells whether some Commit since the last call forced a
-		// checkpoint; it is attributed to the newest root (an upper bound, so poisoning is never under-estimated)
+		// checkpoint; which root it was is not observable, so every known root counts (upper bound)
 		if n := fx.Adb.GetNumCheckpoints() - base - explicitRequests; n > forcedSeen {
 			forcedSeen = n
 			c.Class("checkpoint-forced-by-commit")
-			if newest := len(s.known) - 1; newest > maxCheckpointSeq {
-				maxCheckpointSeq = newest
+			for _, r := range s.known {
+				for h := range r.hashes {
+					ckptHashes[h] = struct{}{}
+				}
 			}
 		}
 	}
@@ -182,8 +189,8 @@ func verifC10Run(rt *rapid.T, c *kit.Case, snapshotDir func() string) {
 			lastSnapshotSeq = req.root.seq
 			fx.Adb.SnapshotState(verifSBCopy(req.root.root))
 		} else {
-			if req.root.seq > maxCheckpointSeq {
-				maxCheckpointSeq = req.root.seq
+			for h := range req.root.hashes {
+				ckptHashes[h] = struct{}{}
 			}
 			fx.Adb.SetStateCheckpoint(verifSBCopy(req.root.root))
 		}
@@ -242,61 +249,66 @@ func verifC10Run(rt *rapid.T, c *kit.Case, snapshotDir func() string) {
 
 		// oracle
 		sdb := fx.Tsm.GetSnapshotThatContainsHash(req.root.root)
-		servedByExistingDB := req.kind == "checkpoint" // checkpoints are written into the last snapshot database
+		servedByExistingDB := req.kind == "checkpoint" // checkpoints are written into the newest snapshot database
 		if req.kind == "checkpoint" && sdb != nil && lastSnapshotDB == nil {
 			lastSnapshotDB = sdb // no snapshot yet: the checkpoint opened the first database
 		}
 		if req.kind == "snapshot" && sdb != nil {
 			if sdb == lastSnapshotDB {
+				// takeSnapshot found the root in the newest database (an earlier checkpoint put it there) and did
+				// nothing ("snapshot for rootHash already taken")
 				servedByExistingDB = true
-				// takeSnapshot found the root in the last snapshot database (an earlier checkpoint put it there) and
-				// did nothing ("snapshot for rootHash already taken"): the request is served by that database, which
-				// keeps its class
 				c.Class("snapshot-served-by-existing-database")
 			} else {
-				// a new database was opened. It is in the known class if some root newer than the snapshotted one
-				// was checkpointed before (explicitly, or forced by a Commit - also one of this round's burst,
-				// whose checkpoint request may have overtaken the snapshot request: upper bound)
 				lastSnapshotDB = sdb
-				poisoned = maxCheckpointSeq > req.root.seq
-				if poisoned {
-					c.Class("snapshot-of-root-older-than-a-checkpointed-root")
+				staleCkptHashes = make(map[string]struct{}, len(ckptHashes))
+				for h := range ckptHashes {
+					staleCkptHashes[h] = struct{}{}
 				}
 			}
 		}
-		keyKind := req.kind
-		if servedByExistingDB && poisoned {
-			if verifSBKnown(verifC10KeyOlderSnapshot) {
-				if sdb != nil {
-					sdb.DecreaseNumReferences()
-				}
-				c.Excluded(verifC10KeyOlderSnapshot)
-				continue
-			}
-			keyKind = "known-class"
-		}
+		// key of a failure: the known class iff an existing database served the request and every missing
+		// node belongs to a root checkpointed before that database was opened
 		key := func(suffix string) string {
-			if keyKind == "known-class" {
-				return verifC10KeyOlderSnapshot
+			normal := "C10:" + req.kind + ":" + suffix
+			if !servedByExistingDB || len(staleCkptHashes) == 0 {
+				return normal
 			}
-			return "C10:" + keyKind + ":" + suffix
+			missing := 0
+			for h := range req.root.hashes {
+				if sdb != nil {
+					if _, errGet := sdb.Get([]byte(h)); errGet == nil {
+						continue
+					}
+				}
+				missing++
+				if _, ok := staleCkptHashes[h]; !ok {
+					return normal
+				}
+			}
+			if missing == 0 {
+				return normal
+			}
+			return verifC10KeyOlderSnapshot
 		}
 		if sdb == nil {
 			c.Violation(key("root-not-in-any-snapshot"), "%s of %s %x finished but no snapshot database contains the root; history: %s",
 				req.kind, req.tag, req.root.root[:4], s.history())
 		}
 		read, errRead := verifSBReadRoot(sdb, fx.Marsh, fx.Hasher, req.root.root)
-		sdb.DecreaseNumReferences()
 		if errRead != nil {
 			if strings.HasPrefix(errRead.Error(), "fixture:") {
 				rt.Fatalf("%v", errRead)
 			}
 			_, errMain := verifSBReadRoot(fx.MainDB, fx.Marsh, fx.Hasher, req.root.root)
-			c.Violation(key("incomplete"), "%s of %s %x: the state cannot be rebuilt from the snapshot database alone: %v (same root read from the main database now: %v); history: %s",
+			k := key("incomplete")
+			sdb.DecreaseNumReferences()
+			c.Violation(k, "%s of %s %x: the state cannot be rebuilt from the snapshot database alone: %v (same root read from the main database now: %v); history: %s",
 				req.kind, req.tag, req.root.root[:4], errRead, errMain, s.history())
 		}
+		sdb.DecreaseNumReferences()
 		if d := verifSBDiff(req.root.model, read.State); d != "" {
-			c.Violation(key("content"), "%s of %s %x: state rebuilt from the snapshot database differs from the model: %s; history: %s",
+			c.Violation("C10:"+req.kind+":content", "%s of %s %x: state rebuilt from the snapshot database differs from the model: %s; history: %s",
 				req.kind, req.tag, req.root.root[:4], d, s.history())
 		}
 		if commitsDuring > 0 && prunesDuring > 0 && req.root.model.numDataTries() >= 2 {
